@@ -13,6 +13,11 @@ PROPS = {
         "trusted_base": LEX_TB + ["parser/executor for HTML nodes not yet inside the Lean model: render-level claims are decided by the direct oracles of c06-render"],
         "assumptions": ["theorems are about the Lean lexer model instantiated at tables regenerated from lexer.go; the model is tied to the code by the lex correspondence suite (token streams on all short strings over the lexer alphabet)"],
     },
+    "C17": {
+        "suites": [{"name": "c17-str", "proj": ["filter"]}],
+        "trusted_base": ["url.QueryEscape re-implemented in the model (compared per byte and on all BMP runes)", "unicode/utf8 decoding re-implemented in the model (Utf8.decode)", "Go regexp: striptags' pattern re-implemented as a matcher; removetags judged by a direct oracle only"],
+        "assumptions": ["filters are modelled as byte-string functions and compared with ApplyFilter on every BMP rune (stride in quick), all single bytes, astral runes, all pairs/triples over the special characters and random strings"],
+    },
     "C16": {
         "suites": [
             {"name": "lex", "proj": ["positions", "panic"]},
